@@ -927,12 +927,27 @@ fn main() {
     let n_random = if args.thorough() { 10_000 } else { 500 };
     let mut rng = Rng::new(args.seed);
     let mut cases: Vec<(String, Config, Vec<Op>)> = corpus().into_iter().map(|(c, o)| ("corpus".to_string(), c, o)).collect();
+    // minimised past failures kept under corpus/C16 (cwd = /verif)
+    if let Ok(rd) = std::fs::read_dir("corpus/C16") {
+        let mut files: Vec<_> = rd.filter_map(|e| e.ok()).map(|e| e.path()).filter(|p| p.extension().map(|x| x == "json").unwrap_or(false)).collect();
+        files.sort();
+        for f in files {
+            if let Ok(v) = std::fs::read_to_string(&f).map_err(|_| ()).and_then(|t| serde_json::from_str::<serde_json::Value>(&t).map_err(|_| ())) {
+                if let (Some(c), Some(o)) = (v["cfg"].as_str(), v["ops"].as_str()) {
+                    cases.push(("corpus-file".to_string(), dec_cfg(c), decode(o)));
+                }
+            }
+        }
+    }
     for _ in 0..n_random {
         let mut r = rng.fork();
         let (c, o) = gen_case(&mut r, &mut report);
         cases.push(("random".to_string(), c, o));
     }
 
+    let mut failed_cases = 0usize;
+    let mut shrunk_disagreements = 0usize;
+    let mut shrunk_violations = 0usize;
     for (origin, cfg, ops) in cases {
         let ops = normalize(&ops);
         let text = format!("{}|{}", enc_cfg(&cfg), encode(&ops));
@@ -963,11 +978,27 @@ fn main() {
         let (differs, model_out) = model.differs(&run.model_line, &run.impl_out);
         report.sample(json!({"cfg": enc_cfg(&cfg), "ops": encode(&ops).chars().take(400).collect::<String>(),
                              "impl": run.impl_out.chars().take(400).collect::<String>(), "model": model_out.chars().take(400).collect::<String>()}));
+        if differs || !run.bad.is_empty() {
+            failed_cases += 1;
+        }
         if differs {
-            let shrunk = ddmin(&ops, &mut |cand: &[Op]| match rt.block_on(run_case(&cfg, cand)) {
-                Ok(r) => model.differs(&r.model_line, &r.impl_out).0,
-                Err(_) => false,
-            });
+            // shrink (bounded effort, first few failures only): keep the disagreement
+            let shrunk = if shrunk_disagreements < 3 {
+                shrunk_disagreements += 1;
+                let mut budget = 150;
+                ddmin(&ops, &mut |cand: &[Op]| {
+                    if budget == 0 {
+                        return false;
+                    }
+                    budget -= 1;
+                    match rt.block_on(run_case(&cfg, cand)) {
+                        Ok(r) => model.differs(&r.model_line, &r.impl_out).0,
+                        Err(_) => false,
+                    }
+                })
+            } else {
+                ops.clone()
+            };
             let sr = rt.block_on(run_case(&cfg, &shrunk)).ok();
             let (sl, si, sbad) = sr.map(|r| (r.model_line, r.impl_out, r.bad)).unwrap_or_default();
             let sm = model.ask(&sl);
@@ -979,13 +1010,29 @@ fn main() {
             }));
         }
         if !run.bad.is_empty() {
-            let shrunk = ddmin(&ops, &mut |cand: &[Op]| match rt.block_on(run_case(&cfg, cand)) {
-                Ok(r) => !r.bad.is_empty(),
-                Err(_) => false,
-            });
+            let shrunk = if shrunk_violations < 3 {
+                shrunk_violations += 1;
+                let mut budget = 150;
+                ddmin(&ops, &mut |cand: &[Op]| {
+                    if budget == 0 {
+                        return false;
+                    }
+                    budget -= 1;
+                    match rt.block_on(run_case(&cfg, cand)) {
+                        Ok(r) => !r.bad.is_empty(),
+                        Err(_) => false,
+                    }
+                })
+            } else {
+                ops.clone()
+            };
             let sbad = rt.block_on(run_case(&cfg, &shrunk)).map(|r| r.bad).unwrap_or_default();
-            let what = if sbad.is_empty() { run.bad.join("; ") } else { sbad.join("; ") };
+            let (what, shrunk) = if sbad.is_empty() { (run.bad.join("; "), ops.clone()) } else { (sbad.join("; "), shrunk) };
             report.oracle_violation("", &what, json!({"cfg": enc_cfg(&cfg), "ops": encode(&shrunk), "original": encode(&ops)}));
+        }
+        if failed_cases >= 12 {
+            report.notes.push(format!("stopped after {} failing cases ({} cases run)", failed_cases, report.impl_runs));
+            break;
         }
     }
     report.notes.push(format!("model calls: {}", model.calls));
